@@ -67,15 +67,19 @@ XTrees == <<
   \* the levels differ (the lower level stands for the deeper, original sub-tree)
   Over(<< C(A, <<2, 3>>), C(D, <<>>) >>, Proof(ML1, 1, {<<2, 1, 1>>})),            \* 5 root[leaf, Mb[r1[leaf, Ma[c[pruned MASK 3 (x), y[v[v1]]]]]]]
   Over(<< C(G, <<2, 3>>), C(A, <<>>) >>, Proof(ML2, 1, {<<2, 1, 2, 1, 1>>, <<2, 1, 2, 1, 2>>})),   \* 6 root[leaf, Mc[r0[leaf, Mb[r1[leaf, Ma[c[pruned MASK 5, pruned MASK 6]]]]]]]
-  Over(<< C(E, <<2, 3>>), C(B, <<>>) >>, Proof(ML2, 1, {<<2, 1, 2, 1>>}))          \* 7 ... Ma[pruned MASK 7 (c)]
+  Over(<< C(E, <<2, 3>>), C(B, <<>>) >>, Proof(ML2, 1, {<<2, 1, 2, 1>>})),         \* 7 ... Ma[pruned MASK 7 (c)]
+  \* 8 a cut from beneath two Merkle cells, no Merkle cell in it (MerkleProof!HighViewOK): c[x[pruned MASK 1], y[pruned MASK 2, leaf]],
+  \* root of level 2: a newly pruned position (mask 1) beside the kept branch of mask 2 - the OR of the masks is not their maximum
+  WithMasks(<< C(B, <<2, 4>>), C(E, <<3>>), PrunedCellK(0, InfoTable(Sub)[1], 0), C(F, <<5, 6>>), PrunedCellK(0, InfoTable(Sub2)[1], 1), C(A, <<>>) >>)
 >>
 \* the pruned branches of a table that store more than one level: <<mask, stored depths>>
 MultiLevel(TT) == {<<TT[i].m, LET d == DataBytes(TT[i].b) n == Pop(TT[i].m) IN [q \in 1..n |-> d[1 + 2 + 32 * n + 2 * (q - 1)] * 256 + d[2 + 2 + 32 * n + 2 * (q - 1)]]>>
                     : i \in {j \in 1..Len(TT) : TT[j].x = Pruned /\ Pop(TT[j].m) > 1}}
-XOK == /\ \A t \in 1..Len(XTrees) : ExoticSourceOK(XTrees[t], 1)
+XOK == /\ \A t \in 1..7 : ExoticSourceOK(XTrees[t], 1)
+       /\ HighViewOK(XTrees[8], 1) /\ XTrees[8][1].m = 3 /\ XTrees[8][4].m = 2 /\ XTrees[8][2].m = 1
        /\ {x[1] : x \in MultiLevel(XTrees[5])} = {3} /\ {x[1] : x \in MultiLevel(XTrees[6])} = {5, 6} /\ {x[1] : x \in MultiLevel(XTrees[7])} = {7}
        /\ \A t \in 5..7 : \A x \in MultiLevel(XTrees[t]) : \A a, b \in 1..Len(x[2]) : a # b => x[2][a] # x[2][b]
-ASSUME Len(XTrees) = 7 /\ (Exotic => XOK)
+ASSUME Len(XTrees) = 8 /\ (Exotic => XOK)
 SrcTrees == IF Exotic THEN XTrees ELSE Trees
 
 VARIABLES T, hs, stk, ps, nxt, hist, exph, cur, open, nops, done, first, aux
